@@ -9,6 +9,7 @@ mod mle;
 mod ord;
 mod pmh;
 mod purity;
+mod setf;
 mod sigs;
 mod sk;
 mod tracker;
@@ -28,6 +29,8 @@ fn main() {
         "est-cases" => est::cases(rest),
         "pmh-cases" => pmh::cases(rest),
         "sk-cases" => sk::cases(rest),
+        "bounds-props" => setf::bounds(rest),
+        "card-props" => setf::card(rest),
         "exp01-cases" => exp01h::cases(rest),
         "exp01-law" => exp01h::law(rest),
         "sig-cases" => sigs::cases(rest),
